@@ -6,9 +6,9 @@ git diff -- src > /tmp/confirm.diff
 [ -s /tmp/confirm.diff ] || { echo "no change applied"; exit 2; }
 W=$(cargo test --offline --test demo_seeded 2>&1 | grep -E "^test result" | tail -1)
 L=$(cargo test --offline --lib 2>&1 | grep -E "^test result" | tail -1)
-git stash -q -- src
+git apply -R /tmp/confirm.diff
 O=$(cargo test --offline --test demo_seeded 2>&1 | grep -E "^test result" | tail -1)
-git stash pop -q
+git apply /tmp/confirm.diff
 echo "with change:    demo: $W"
 echo "with change:    lib : $L"
 echo "without change: demo: $O"
